@@ -52,6 +52,9 @@ def _func_span(src: str, qualname: str) -> Optional[Tuple[int, int]]:
 
 
 def apply_variant(sources: Dict[str, str], v: dict) -> Optional[Dict[str, str]]:
+    if v.get("global") == "reformat":
+        # every file re-printed from its syntax tree: comments gone, layout and line numbers changed
+        return {k: ast.unparse(ast.parse(t)) + "\n" for k, t in sources.items()}
     out = dict(sources)
     for edit in v["edits"]:
         path = edit["file"]
@@ -132,6 +135,8 @@ def run_for(prop: str, seed: int = 0, jobs: int = 16) -> dict:
 
     sources = load_sources()
     variants = [v for v in VARIANTS if v["property"] == prop]
+    variants.append({"property": prop, "id": "%s-reformat-all" % prop, "kind": "silent", "rule": None, "edits": [], "global": "reformat",
+                     "note": "all sources re-printed by ast.unparse (layout, comments and line numbers change, behaviour does not)"})
     try:
         baseline = violations_of(prop, sources)
     except AnalysisError:
